@@ -10,7 +10,7 @@
 // Fix 9e298c7 only covers ends that were ALREADY attached when the shape is
 // deleted (m_following_conns), not attachments still waiting in the queue.
 #include "libavoid/libavoid.h"
-#include "../c15d_obs_common.h"
+#include "c15d_obs_common.h"
 using namespace Avoid;
 
 static int scenario(void)
